@@ -26,6 +26,7 @@ D = 'pybufrkit/descriptors.py'
 U = 'pybufrkit/utils.py'
 E = 'pybufrkit/encoder.py'
 M = 'pybufrkit/mdquery.py'
+B = 'pybufrkit/bufr.py'
 
 MUTS = [
     # ---- stage A: constants ------------------------------------------------------------------
@@ -102,6 +103,13 @@ MUTS = [
     ('E7', 'preserve', 'C17', M, "            section_index = None\n            metadata_name = metadata_expr[1:]\n",
      "            metadata_name = metadata_expr[1:]\n            section_index = None\n"),
     ('E8', 'preserve', 'C17', M, "if '.' in metadata_expr:", "if metadata_expr.count('.') > 0:"),
+    # bufr.py BufrMessage.subset (fragments subset_checks, subset_select)
+    ('F1', 'change', 'C10', B, "if max(subset_indices) >= self.n_subsets.value:", "if max(subset_indices) > self.n_subsets.value:"),
+    ('F2', 'change', 'C10', B, "if min(subset_indices) < 0:", "if min(subset_indices) < -1:"),
+    ('F3', 'change', 'C10', B, "n_subsets = len(set(subset_indices))", "n_subsets = len(subset_indices)"),
+    ('F4', 'change', 'C10', B, "                         if i in subset_indices]", "                         if i not in subset_indices]"),
+    ('F5', 'preserve', 'C10', B, "if min(subset_indices) < 0:", "if 0 > min(subset_indices):"),
+    ('F6', 'unsupported', 'C10', B, "n_subsets = len(set(subset_indices))", "n_subsets = len(frozenset(subset_indices))"),
 ]
 
 
